@@ -505,18 +505,26 @@ def type_sets(index: RepoIndex, rep, rule: str) -> None:
         for pref, fn_pref, passes_sets in (('Default', 'default', False),
                                            ('NoOverlap', 'no_overlap', True)):
             c = index.cls(rel, f'{pref}GridObject{kind}Representation')
-            init = c.methods.get('__init__')
+            init = index.method(c, '__init__')      # possibly inherited from a shared base
             if init is None:
                 raise AnalysisError(f'{c.name}.__init__ vanished')
             w = walk_function(init.node)
+            # the constructor's own parameter is the space it stores
+            ips = [a.arg for a in init.node.args.args[1:]]
+
+            def _canon(d):
+                if d is None or not ips:
+                    return d
+                return (frozenset(sp_attr + a[len(ips[0]):] if a.startswith(ips[0] + '.')
+                                  else a for a in d[0]), d[1])
             st = {src(e.target): src(e.value) for e in w.events if e.kind == 'attrstore'}
             # read as sets: `frozenset([*space.object_types, NoneGridObject])` is the same set
             from ..setden import set_den
             stv = {src(e.target): e.value for e in w.events if e.kind == 'attrstore'}
-            dt = set_den(stv['self._grid_object_types']) \
-                if 'self._grid_object_types' in stv else None
-            dc = set_den(stv['self._grid_object_colors']) \
-                if 'self._grid_object_colors' in stv else None
+            dt = _canon(set_den(stv['self._grid_object_types'])
+                        if 'self._grid_object_types' in stv else None)
+            dc = _canon(set_den(stv['self._grid_object_colors'])
+                        if 'self._grid_object_colors' in stv else None)
             want_t = {f'{sp_attr}.object_types'} | {
                 'elt:' + x.strip() for x in extra.strip('{}').split(',')}
             ok = dt is not None and dc is not None and dt[0] == want_t and dt[1] and \
